@@ -444,6 +444,9 @@ def apply_params(sig, posargs, pokargs, varargs, kwoargs, varkwargs,
     if sources is not None:
         sig = Signature._upgrade(sig, function, sources, _stacklevel=1)
         sig.sources = sources
+    else:
+        # replace() hands on the very map of the signature it is called on
+        sig.sources = copy_sources(sig.sources)
     return sig
 
 
